@@ -68,6 +68,8 @@ def node_ids(mod, t, v, syn, out, depth=0):
             cc += _width(lb, ub)
             if lb is not None and lb < 0:
                 cc += "-neg"
+            if ub is not None and ub > (1 << 63) - 1:
+                cc += "-u64"        # upper bound beyond LONG_MAX: does not fit the 'long' fields of asn_per_constraint_t
         big = "big" if not (-(1 << 63) <= v < (1 << 63)) else ("w64" if not (-(1 << 31) <= v < (1 << 31)) else "")
         out.add("INTEGER/%s/%s%s@%s" % (cc, vc, big, syn))
     elif k == "ENUMERATED":
